@@ -113,12 +113,20 @@ func c18Scenarios(tier string) []*core.Scenario {
 				feat("form", "r,imm", "mn", "MOV", "w", fmt.Sprint(w), "dst", a, "immclass", immClass(iv)))
 		}})
 	scs = append(scs, &core.Scenario{Name: "push_pop_reg", Bound: -1,
-		Rule:   "PUSH/POP x every 16- and 32-bit register x BITS",
+		Rule:   "PUSH/POP x every 16- and 32-bit register and every segment register x BITS",
 		Bounds: map[string]any{},
 		Build: func(c *core.Chooser) *core.Case {
 			mode := modes[c.Pick("mode", 2)]
 			mn := c.Str("mn", "PUSH", "POP")
-			w := []int{16, 32}[c.Pick("w", 2)]
+			wi := c.Pick("w", 3)
+			if wi == 2 { // segment registers (POP CS does not exist)
+				sr := x86ref.SReg[c.Pick("reg", 6)]
+				if mn == "POP" && sr == "CS" {
+					return nil
+				}
+				return c18Case(mode, mn+" "+sr, x86ref.Want{Op: mn, Ops: []x86ref.WantOp{wreg(sr)}}, feat("form", "sreg", "mn", mn, "w", "sreg", "reg", sr))
+			}
+			w := []int{16, 32}[wi]
 			a := regsOf(w)[c.Pick("reg", 8)]
 			return c18Case(mode, mn+" "+a, x86ref.Want{Op: mn, OpSize: w, Ops: []x86ref.WantOp{wreg(a)}}, feat("form", "r", "mn", mn, "w", fmt.Sprint(w), "reg", a))
 		}})
